@@ -24,6 +24,7 @@ structure W where
   pendAdd : Nat
   pendRh  : Nat
   rhDone  : Nat
+  rhFailed : Nat               -- user RunHandlers calls that ended with a Subscribe error, not yet matched with `rhr,_,err`
   pendEm  : List (Nat × Nat)   -- (handler, u): emission attempts not yet handed over, per handler in order
   uMap    : List (Nat × Nat)   -- (u, index in st.msgs)
   ck      : List (Nat × Nat)   -- (harness Close caller, index in st.closers)
@@ -46,7 +47,13 @@ def wact (w : W) : WA → Option W
   | .pendAdd => some { w with pendAdd := w.pendAdd + 1 }
   | .pendRh => some { w with pendRh := w.pendRh + 1 }
   | .rhRet => if w.rhDone > 0 then some { w with rhDone := w.rhDone - 1 } else none
-  | .rhFail => if w.pendRh > 0 then some { w with pendRh := w.pendRh - 1 } else none
+  | .rhFail =>
+    if w.rhFailed > 0 then some { w with rhFailed := w.rhFailed - 1 }
+    else if w.pendRh > 0 then some { w with pendRh := w.pendRh - 1 } else none
+  | .m (.rhSubFail i) =>
+    match w.st.hl with
+    | .rh false _ => (act fx w.st (.rhSubFail i)).map fun s => { w with st := s, rhFailed := w.rhFailed + 1 }
+    | _ => (act fx w.st (.rhSubFail i)).map fun s => { w with st := s }
   | .pendEm h u => some { w with pendEm := w.pendEm ++ [(h, u)] }
   | .abandon h u => if w.pendEm.contains (h, u) then some { w with pendEm := w.pendEm.erase (h, u) } else none
   | .closeCall k => (act fx w.st .closeCall).map fun s => { w with st := s, ck := w.ck ++ [(k, w.st.closers.length)] }
@@ -108,10 +115,14 @@ def byLabel (w : W) (e : Ev) : List (List WA) :=
   | "ah" => [[.chk fun w => w.pendAdd == 0 && w.st.hs.length == h + 1] ++ (if e.s1 == "n" then [.noteNp h] else [])]
   | "ahp" => []
   | "rc" => [[.m .runCall]]
-  | "rr" => if e.s1 == "nil" then [[.chk fun w => w.st.run == .ret]] else [[.chk fun w => w.st.runErrs > 0]]
+  | "rr" =>
+    if e.s1 == "nil" then [[.chk fun w => w.st.run == .ret]]
+    else if h == 0 then [[.chk fun w => w.st.run == .failed]] else [[.chk fun w => w.st.runErrs > 0]]
   | "rhc" => [[.pendRh]]
   | "rhr" => if e.s1 == "nil" then [[.rhRet]] else [[.rhFail]]
   | "sub" => [[.m (.rhSub h)]]
+  | "sube" => [[.m (.rhSubFail h)]]
+  | "nst" => [[hChk h fun x => !x.startedCh]]
   | "em" => [[.pendEm h u]]
   | "ea" => [[.abandon h u]]
   | "kd" => [[stageIs e.n0 .pump]]
@@ -149,8 +160,8 @@ def byLabel (w : W) (e : Ev) : List (List WA) :=
     -- no goroutine of the router is left: every spawned pump / loop / handleClose / watcher has finished, Run has returned
     [[.chk fun w => w.st.hs.all (fun x => (x.pump == .off || x.pump == .done) && (x.loop == .off || x.loop == .done) &&
                       (x.hc == .off || x.hc == .done)) &&
-                    (w.st.watch == .off || w.st.watch == .done) && (w.st.run == .idle || w.st.run == .ret)]]
-  | "go" | "rel" | "fin" => [[]]
+                    (w.st.watch == .off || w.st.watch == .done) && (w.st.run == .idle || w.st.run == .ret || w.st.run == .failed)]]
+  | "go" | "rel" | "fin" | "sgo" => [[]]
   | _ => []
 
 def execSeq (w : W) : List WA → Option W
@@ -218,7 +229,7 @@ def runTrace (fuel : Nat) (init : W) (trace : Array Ev) : Result := Id.run do
 
 open Wm.RouterMon in
 def initW (evs : Array Ev) : W :=
-  { st := init, pendAdd := 0, pendRh := 0, rhDone := 0, pendEm := [], uMap := [], ck := [], np := [],
+  { st := init, pendAdd := 0, pendRh := 0, rhDone := 0, rhFailed := 0, pendEm := [], uMap := [], ck := [], np := [],
     timerOk := anyCloseErr evs }
 
 open Wm.RouterMon in
